@@ -650,6 +650,7 @@ func (p *parent) judgeVariant(v Variant, r CaseResult, cr *vkit.ChildResult) {
 	s := b.Sites[v.Site]
 	mu := mutationsFor(s)[v.Mut]
 	class := s.Kind + ":" + mu.Name
+	fp := fingerprintOf(s, mu)
 	c.Distinct("classes_run", class)
 	if d := os.Getenv("VERIF_C16_DUMP"); d != "" {
 		// debugging aid: one line per judged variant
@@ -687,7 +688,7 @@ func (p *parent) judgeVariant(v Variant, r CaseResult, cr *vkit.ChildResult) {
 		p.sample("survived", map[string]any{"case": id, "site": s.Path, "invalid_kind": mu.Name, "substituted": mu.Frag, "outcome": "accepted and survived",
 			"inputs": r.Inputs, "probes_sent": r.Sent, "chunks": r.Chunks, "records_out": r.Records, "real_forwarders": v.Real})
 		if mu.MustReject {
-			c.Violation(class+":accepted", fmt.Sprintf("%s (%s) set to %s is accepted by the loader although it references something undefined (nothing validates it at load time)",
+			c.Violation(fp+":accepted", fmt.Sprintf("%s (%s) set to %s is accepted by the loader although it references something undefined (nothing validates it at load time)",
 				s.Path, b.Name, mu.Frag), p.witness(v, r, cr))
 		}
 	case "panic":
@@ -698,7 +699,7 @@ func (p *parent) judgeVariant(v Variant, r CaseResult, cr *vkit.ChildResult) {
 		} else {
 			p.refuted(class) // the child ends itself after such a case
 		}
-		c.Violation(class, fmt.Sprintf("%s (%s), invalid kind %s %s: %s: %s", s.Path, b.Name, mu.Name, mu.Frag, where, cut(r.Panic, 300)), p.witness(v, r, cr))
+		c.Violation(fp, fmt.Sprintf("%s (%s), invalid kind %s %s: %s: %s", s.Path, b.Name, mu.Name, mu.Frag, where, cut(r.Panic, 300)), p.witness(v, r, cr))
 		p.sample("panic", map[string]any{"case": id, "site": s.Path, "invalid_kind": mu.Name, "substituted": mu.Frag, "outcome": where, "panic": cut(r.Panic, 200)})
 	case "died":
 		c.Nontrivial(id)
@@ -707,7 +708,7 @@ func (p *parent) judgeVariant(v Variant, r CaseResult, cr *vkit.ChildResult) {
 		if cr != nil {
 			what = cr.CrashSummary()
 		}
-		c.Violation(class, fmt.Sprintf("%s (%s), invalid kind %s %s: accepted by ParseConfigFile, then the process dies while building or running what it configures: %s",
+		c.Violation(fp, fmt.Sprintf("%s (%s), invalid kind %s %s: accepted by ParseConfigFile, then the process dies while building or running what it configures: %s",
 			s.Path, b.Name, mu.Name, mu.Frag, cut(what, 400)), p.witness(v, r, cr))
 		p.sample("died", map[string]any{"case": id, "site": s.Path, "invalid_kind": mu.Name, "substituted": mu.Frag, "outcome": "process death", "summary": cut(what, 300)})
 	}
